@@ -1,4 +1,5 @@
 import Driver.Util
+import Driver.C14Util
 import AslModel.Model.Isa.I4004
 import AslModel.Model.Isa.I8080
 /-! Driver mode `c14`: one instruction statement per request line.
@@ -14,33 +15,6 @@ answer  : `legal=<0|1> model=<hex|E<n>> corr=<eq|ne> spec=<ok|bad> [dec=<renderi
 -/
 namespace Driver.C14
 open AslModel AslModel.Isa
-
-def renderModel (r : Except Err (List UInt8)) : String :=
-  match r with
-  | .ok bs => hex bs
-  | .error e => s!"E{e.num}"
-
-/-- does the model's result agree with what the real assembler did? -/
-def corr (r : Except Err (List UInt8)) (real : String) : Bool :=
-  match r with
-  | .ok bs => real == hex bs
-  | .error e => real.startsWith "E" && (e.num == 0 || real == s!"E{e.num}")
-
-def answer (legal : Bool) (model : Except Err (List UInt8)) (real : String)
-    (specOnBytes : List UInt8 → Bool) (dec : List UInt8 → String) : String :=
-  let c := corr model real
-  let (s, d) :=
-    if real.startsWith "E" then (!legal, "")
-    else match unhex real with
-      | some bs => (legal && !bs.isEmpty && specOnBytes bs, dec bs)
-      | none => (false, "")
-  s!"legal={if legal then 1 else 0} model={renderModel model} corr={if c then "eq" else "ne"} spec={if s then "ok" else "bad"}" ++
-    (if s then "" else s!" dec={d}")
-
-def splitBar (ws : List String) : List String × String :=
-  match ws.span (· ≠ "|") with
-  | (a, _ :: r :: _) => (a, r)
-  | (a, _) => (a, "none")
 
 def h4004 (cpu pc : Nat) (mn : String) (args : List Int) (real : String) : String :=
   open Spec.I4004 in
@@ -70,13 +44,26 @@ def h8080 (cpu : Nat) (mn : String) (args : List Int) (real : String) : String :
 
 def lastComp (s : String) : String := (s.splitOn ".").getLast!
 
+def forms4004 : Unit → String := fun _ => open Spec.I4004 in
+  " ".intercalate (Mn.all.map fun m => s!"{m.name}:{lastComp (reprStr (form m))}:{minCpu m}")
+
+def forms8080 : Unit → String := fun _ => open Spec.I8080 in
+  " ".intercalate (Mn.all.map fun m => s!"{m.name}:{(form m).name}:{minCpu m}")
+
+/-- Registry of modelled targets: name, statement handler `(cpu pc mnemonic args real) → answer`, and the SPEC's
+form list for the generator.  A new target adds one line here (its handler lives in `Driver/C14_<target>.lean`,
+which must not import this file; shared helpers are in `Driver/C14Util.lean`). -/
+def targets : List (String × (Nat → Nat → String → List Int → String → String) × (Unit → String)) := [
+  ("4004", h4004, forms4004),
+  ("8080", fun c _ mn as real => h8080 c mn as real, forms8080)
+]
+
 /-- mode `c14forms`: the SPEC's mnemonic list with operand form and minimum CPU, for the generator -/
 def handleForms (line : String) : String :=
   match words line with
-  | ["4004"] => open Spec.I4004 in
-    " ".intercalate (Mn.all.map fun m => s!"{m.name}:{lastComp (reprStr (form m))}:{minCpu m}")
-  | ["8080"] => open Spec.I8080 in
-    " ".intercalate (Mn.all.map fun m => s!"{m.name}:{(form m).name}:{minCpu m}")
+  | [t] => match targets.find? (·.1 == t) with
+    | some (_, _, f) => f ()
+    | none => "bad-target"
   | _ => "bad-target"
 
 def handle (line : String) : String :=
@@ -85,9 +72,9 @@ def handle (line : String) : String :=
   | tgt :: cpu :: pc :: mn :: args =>
     match cpu.toNat?, pc.toNat?, args.mapM String.toInt? with
     | some c, some p, some as =>
-      if tgt == "4004" then h4004 c p mn as real
-      else if tgt == "8080" then h8080 c mn as real
-      else "bad-target"
+      match targets.find? (·.1 == tgt) with
+      | some (_, h, _) => h c p mn as real
+      | none => "bad-target"
     | _, _, _ => "bad-request"
   | _ => "bad-request"
 
